@@ -198,7 +198,7 @@ func init() {
 	addRules("C13", "R-NOALIAS")
 	addRules("C14", "R-IDLE", "R-NOALIAS")
 	addRules("C18", "R-ROLES")
-	addRules("C19", "R-ROLES")
+	addRules("C19", "R-ROLES", "R-ORDERLAWS")
 }
 
 func init() {
